@@ -731,6 +731,43 @@ def r118(ctx):
         raise AnalysisError(f"R-11.8: only {n} pasted propagations found in quantis_swap_zero (expected 2)")
 
 
+ENGBASE_REL = "infretis/classes/engines/enginebase.py"
+
+def r1111(ctx):
+    """Two engine objects can propagate in one worker directory within one job (QuanTIS runs a
+    one-step propagation on engine0 and on engine1 with the same ensemble name), so the name of a
+    propagation's trajectory file must be unique per *process*, not per engine object: the running
+    number in the name handed to _propagate_from comes from process-wide state (a module-level
+    counter function / itertools.count), never from an attribute of the engine instance."""
+    rid = "R-11.11"
+    tree = ctx.tree
+    f = tree.func(ENGBASE_REL, "EngineBase.propagate")
+    fl = flow_of(f)
+    calls = [c for c in walk_local(f) if isinstance(c, ast.Call) and is_self_attr(c.func, "_propagate_from")]
+    if not calls:
+        raise AnalysisError("R-11.11: EngineBase.propagate does not call self._propagate_from")
+    mod = tree.modules[ENGBASE_REL]
+    process_wide = set()
+    for q, g in mod.funcs.items():
+        if "." in q:
+            continue
+        own_attr = any(isinstance(t, ast.Attribute) and isinstance(t.value, ast.Name) and t.value.id == g.name for st in walk_local(g) if isinstance(st, (ast.Assign, ast.AugAssign)) for t in (st.targets if isinstance(st, ast.Assign) else [st.target]))
+        glob = any(isinstance(st, ast.Global) for st in walk_local(g))
+        nxt = any(isinstance(c, ast.Call) and last_name(c) == "next" for c in walk_local(g))
+        if own_attr or glob or nxt:
+            process_wide.add(g.name)
+    for c in calls:
+        if not c.args:
+            raise AnalysisError("R-11.11: _propagate_from called without the trajectory name")
+        deps = fl.deps(c.args[0], fl.cfg.node_of(c))
+        called = {key.split(".")[-1].split("(")[0] for k, key in deps if k == "call"}
+        inst = sorted(key for k, key in deps if k in ("free", "param") and key.startswith("self.") and key not in ("self.exe_dir",))
+        if called & process_wide or any(k == "call" and key.split("(")[0] in ("next",) for k, key in deps):
+            ctx.ok(rid, c, f"the trajectory name carries a running number from the process-wide counter {sorted(called & process_wide) or ['next(...)']}: unique for every propagation of the process")
+        else:
+            ctx.bad(rid, c, f"the trajectory name handed to _propagate_from has no process-wide running number (it depends on {inst or 'no counter at all'}): two engine objects used by one job in the same worker directory - the one-step propagations of a QuanTIS swap on engine0 and engine1 - produce the same file name when they have propagated equally often; the second run appends to the first run's file and its frames are recorded as frames 0, 1 of that file, i.e. the other engine's configurations", construct="propagate: trajectory name without process-wide counter")
+
+
 def run(ctx):
     ctx.rule("R-11.4", "QuanTIS acceptance: each energy difference is weighted with the beta of the engine of its own level", floor=2)
     ctx.rule("R-11.5", "the engines' velocity-reversal codecs negate exactly the velocities (shared with C19 R-19.5): time reversal used by the zero swap is an involution", floor=5)
@@ -754,12 +791,17 @@ def run(ctx):
     ctx.rule("R-11.10", "each half of a zero swap runs on the engine of its own ensemble: the per-ensemble engine table handed to the move is built from that ensemble's entry of simulation.ensemble_engines", floor=1)
     from .shared import per_ensemble_engine_table
     ctx.attempt(per_ensemble_engine_table, ctx, "R-11.10", " (the new [0+] path is continued with the [0-] dynamics and the QuanTIS rule evaluated with the wrong potential and beta: swapping twice does not restore the sequences)")
+    ctx.rule("R-11.11", "trajectory file names are unique per process (process-wide running number): the two one-step propagations of a QuanTIS swap on two engine objects never share a file", floor=1)
+    ctx.attempt(r1111, ctx)
     from . import c19
     from .shared import RuleProxy
     ctx.attempt(c19.r195, RuleProxy(ctx, "R-11.5", " (a zero swap re-uses stored velocities in the opposite time direction: swapping twice would not restore the order-parameter sequence)"))
 
 
 VARIANTS = [
+    K("c11-keep-process-counter-itertools", ENGBASE_REL, 'str(counter())\n', 'str(next(_PROPAGATIONS))\n', also=[(ENGBASE_REL, "def counter():\n", "import itertools\n_PROPAGATIONS = itertools.count()\n\n\ndef counter():\n")]),
+    K("c11-keep-process-counter-global", ENGBASE_REL, "    counter.count = 0 if not hasattr(counter, \"count\") else counter.count + 1\n    return counter.count\n", "    global _N_PROP\n    _N_PROP += 1\n    return _N_PROP\n\n\n_N_PROP = -1\n"),
+    B("c11-propagation-number-per-engine", ENGBASE_REL, 'ens_set["ens_name"] + "_" + str(os.getpid()) + "_" + str(counter())', 'ens_set["ens_name"] + "_" + str(os.getpid()) + "_" + str(id(self) % 7)', "R-11.11", control=True, why="seeded C11_k"),
     B("c11-engine-table-job-wide", REPEX, "                eng: eng_idx[eng] for eng in ens_engs[ens_num + 1]", "                eng: eng_idx[eng] for eng in eng_names", "R-11.10", control=True, why="seeded C11_j"),
     B("c11-engine-table-other-ensemble", REPEX, "                eng: eng_idx[eng] for eng in ens_engs[ens_num + 1]", "                eng: eng_idx[eng] for eng in ens_engs[ens_num]", "R-11.10"),
     K("c11-keep-engine-table-through-local", REPEX, "            md_items[\"picked\"][ens_num][\"eng_idx\"] = {\n                eng: eng_idx[eng] for eng in ens_engs[ens_num + 1]\n            }", "            own = ens_engs[ens_num + 1]\n            md_items[\"picked\"][ens_num][\"eng_idx\"] = {eng: eng_idx[eng] for eng in own}"),
